@@ -108,6 +108,7 @@ pub proof fn lemma_last_writer_exists(index: Seq<usize>, n: int, k: int)
     }
 }
 
+pub open spec fn reg_shift(v: F, eps: F, sign: i8) -> F { if sign == 1 { f_add(v, eps) } else { f_sub(v, eps) } }
 impl DirectLDLKKTSolver<F> {
 //@fn file=src/solver/core/kktsolvers/direct/quasidef/directldlkktsolver.rs in="KKTSolver<T> for DirectLDLKKTSolver<T>" name=update_P rules=R1
 //@contract
@@ -165,6 +166,13 @@ impl DirectLDLKKTSolver<F> {
         // the statically regularised diagonal lives only inside the LDL engine's copy
         final(self).KKT.same_pattern(&old(self).KKT), final(self).KKT.nzval@ == old(self).KKT.nzval@,
         final(self).map == old(self).map, final(self).dsigns@ == old(self).dsigns@,
+        // C11 ("a recorded sign pattern that matches the pivot signs of the regularised matrix"): with static regularisation on, the
+        // engine receives diag + eps where the recorded sign is +1 and diag - eps elsewhere, eps = the regulariser computed from the true diagonal
+        settings.static_regularization_enable && old(self).dsigns@.len() == old(self).map.diag_full@.len() ==>
+            forall|k: int| last_writer(old(self).map.diag_full@, old(self).map.diag_full@.len() as int, k) ==>
+                final(self).ldlsolver.copy@[#[trigger] old(self).map.diag_full@[k] as int]
+                    == reg_shift(old(self).KKT.nzval@[old(self).map.diag_full@[k] as int], final(self).diagonal_regularizer, old(self).dsigns@[k]),
+        !settings.static_regularization_enable ==> final(self).ldlsolver.copy@ == old(self).ldlsolver.copy@,
 //@pre
         let ghost nz0 = self.KKT.nzval@;
         let ghost idx = self.map.diag_full@;
@@ -176,8 +184,11 @@ impl DirectLDLKKTSolver<F> {
                     forall|k: int| 0 <= k < r14_i1 ==> #[trigger] diag_kkt@[k] == nz0[idx[k] as int],
 //@loop 2
                 invariant diag_shifted@.len() == idx.len(), diag_kkt@.len() == idx.len(), r14_n2 <= diag_shifted@.len(), r14_n2 <= dsigns@.len(),
-                    KKT.nzval@ == nz0, map.diag_full@ == idx,
+                    KKT.nzval@ == nz0, map.diag_full@ == idx, dsigns@ == old(self).dsigns@,
+                    (dsigns@.len() == idx.len() ==> r14_n2 == idx.len()),
                     forall|k: int| 0 <= k < idx.len() ==> #[trigger] diag_kkt@[k] == nz0[idx[k] as int],
+                    forall|k: int| 0 <= k < r14_i2 ==> #[trigger] diag_shifted@[k] == reg_shift(nz0[idx[k] as int], eps, dsigns@[k]),
+                    forall|k: int| r14_i2 <= k < idx.len() ==> #[trigger] diag_shifted@[k] == nz0[idx[k] as int],
 //@after "_update_values_KKT(KKT, &map.diag_full, diag_kkt)"
             proof {
                 assert forall|s: int| 0 <= s < nz0.len() implies KKT.nzval@[s] == nz0[s] by {
